@@ -5,7 +5,8 @@
 (* resolves to the named node is accepted, subject to the must-be-relative rule.                   *)
 EXTENDS Naturals, Sequences, FiniteSets, SequencesExt
 
-ByName(ns, x) == {i \in 1..Len(ns) : Last(ns[i].p) = x}
+\* (kind "ext": an external-instance row - an element of the tree without a node of its own; not a referable name)
+ByName(ns, x) == {i \in 1..Len(ns) : Last(ns[i].p) = x /\ ns[i].kind # "ext"}
 XPathOf(ns, x) == ns[CHOOSE i \in ByName(ns, x) : TRUE].p
 KindAt(ns, p) == LET S == {i \in 1..Len(ns) : ns[i].p = p}
                  IN IF S = {} THEN "none" ELSE ns[CHOOSE i \in S : TRUE].kind
